@@ -194,7 +194,7 @@ def specs(tier, seed):
         trees = [("flat", "once"), ("nested", "once"), ("flat", "daily"), ("nested2", "once")]
         modes = [(True, None, 1.0), (False, None, 1.0), (True, "propdec", 1.0), (True, None, 0.825)]
     else:
-        alph = [2, 3, 4, 5, 6, 8]
+        alph = [2, 3, 4, 6, 8]
         n = 5
         levs = [(-2.0, 3.0), (-1.5, 2.5), (1.0, 0.0), (-3.0, 4.0)]
         trees = [("flat", "once"), ("nested", "once"), ("flat", "daily"), ("nested2", "once"), ("deep", "once"), ("nested", "daily")]
